@@ -19,20 +19,33 @@ structure Cfg where
   trustOther : Bool         -- … a different key is stored
   saveReplaces : Bool       -- saveIdentity replaces the stored key (and keeps it across processes)
   rebuildAfterTrust : Bool  -- create_session(autotrust=True) builds the session once the identity is trusted
+  checksOldSessions : Bool  -- decrypt_msg: the identity of an EARLIER session state that decrypts an ordinary message is checked before that
+                            -- state becomes the current one again (python-axolotl's SessionCipher.decryptMsg alone does not ask)
 deriving Repr, DecidableEq
 
 /-- the behaviour the property needs -/
 def Cfg.good : Cfg :=
-  { trustUnknown := true, trustSame := true, trustOther := false, saveReplaces := true, rebuildAfterTrust := true }
+  { trustUnknown := true, trustSame := true, trustOther := false, saveReplaces := true, rebuildAfterTrust := true, checksOldSessions := true }
 
 structure St where
   pinned : Nat → Option Nat      -- identities table: contact → identity key                      (persistent)
   session : Nat → Option Nat     -- sessions table: contact → identity the session was built for  (persistent)
+  archived : Nat → List Nat      -- … and the identities of the earlier session states the same record still holds  (persistent)
   autotrust : Bool               -- PROP_IDENTITY_AUTOTRUST (set by the application)
 
 def upd (f : Nat → Option Nat) (c : Nat) (v : Option Nat) : Nat → Option Nat := fun x => if x = c then v else f x
 
-def init : St := { pinned := fun _ => none, session := fun _ => none, autotrust := false }
+def init : St := { pinned := fun _ => none, session := fun _ => none, archived := fun _ => [], autotrust := false }
+
+def updL (f : Nat → List Nat) (c : Nat) (v : List Nat) : Nat → List Nat := fun x => if x = c then v else f x
+
+/-- a session state for identity k becomes the current one of contact c's record; the state it replaces (if it is for another identity) is
+    kept among the earlier ones, and k is no longer among them -/
+def setSession (s : St) (c k : Nat) : St :=
+  match s.session c with
+  | some j => if j = k then s
+              else { s with session := upd s.session c (some k), archived := updL s.archived c (j :: (s.archived c).filter (· ≠ k)) }
+  | none => { s with session := upd s.session c (some k), archived := updL s.archived c ((s.archived c).filter (· ≠ k)) }
 
 inductive Ev
   | bundle (c k : Nat)       -- a key bundle for contact c presenting identity k is processed (create_session)
@@ -68,7 +81,7 @@ def save (cfg : Cfg) (s : St) (c k : Nat) : St :=
 
 /-- SessionBuilder on a trusted identity: build the session, save the identity -/
 def build (cfg : Cfg) (s : St) (c k : Nat) : St :=
-  save cfg { s with session := upd s.session c (some k) } c k
+  save cfg (setSession s c k) c k
 
 def step (cfg : Cfg) (s : St) : Ev → St × List Out
   | .bundle c k =>
@@ -87,7 +100,17 @@ def step (cfg : Cfg) (s : St) : Ev → St × List Out
       if isTrusted cfg s1 c k then (build cfg s1 c k, [.trusted c k, .delivered c k])
       else (s1, [.trusted c k, .raised])       -- the re-handling would recurse for ever
     else (s, [.ignored c k])
-  | .msgIn c k => if s.session c = some k then (s, [.delivered c k]) else (s, [.undecryptable c k])
+  | .msgIn c k =>
+    if s.session c = some k then (s, [.delivered c k])
+    else if k ∈ s.archived c then
+      -- only an earlier session state (of identity k) decrypts it
+      if !cfg.checksOldSessions || isTrusted cfg s c k then (setSession s c k, [.delivered c k])
+      else if s.autotrust then
+        let s1 := save cfg s c k
+        if isTrusted cfg s1 c k then (setSession s1 c k, [.trusted c k, .delivered c k])
+        else (s1, [.trusted c k, .raised])
+      else (s, [.ignored c k])
+    else (s, [.undecryptable c k])
   | .encrypt c =>
     match s.session c with
     | some k => (s, [.encryptedFor c k])
